@@ -36,6 +36,8 @@ structure St where
   rt : Array Nat := #[]
   key : Array Int := #[]
   hd : Hd := { root := 0, size := 0 }
+  /-- header of the swap partner (same element pool) -/
+  hd2 : Hd := { root := 0, size := 0 }
   full : Bool := false
 
 def growTo {α : Type} (a : Array α) (n : Nat) (d : α) : Array α :=
@@ -168,6 +170,8 @@ def hstep (s : St) (ws : List String) : St × String :=
       let s' : St := { s with pr := z s.pr, lf := z s.lf, rt := z s.rt,
                               key := cbs.foldl (fun a i => a.setIfInBounds i 0) s.key, hd := hd' }
       fin s' (showList cbs ++ " p=1")
+  | ["swap"] => fin { s with hd := s.hd2, hd2 := s.hd } "ok"
+  | ["alt"] => fin { s with hd := s.hd2, hd2 := s.hd } "ok"
   | ["dump"] => fin s "ok" true
   | ["fls", x] =>
     match parseNat? x with
